@@ -44,7 +44,8 @@ struct vc_fdinfo {
 
 static inline uint8_t vc_pat(int stream, uint32_t k)
 {
-  return (uint8_t) (k * 131u + (k >> 8) * 31u + (uint32_t) stream * 89u + 17u);
+  uint8_t v = (uint8_t) (k * 131u + (k >> 8) * 31u + (uint32_t) stream * 89u + 17u);
+  return v ? v : 0x5b; /* never NUL: the string sink keeps C strings */
 }
 
 void vchild_run(int ctl, int image, char *const *argv, char *const *envp);
